@@ -127,6 +127,8 @@ type Enc struct {
 	retOrder []string
 	retGuards []string
 	retCount map[string]int
+	wfSeen   map[string]bool
+	refComp  map[string]bool
 }
 
 type iterRec struct {
@@ -158,6 +160,9 @@ func (e *Enc) reset() {
 	e.writes = map[*ssa.BasicBlock]map[string]bool{}
 	e.havocs = map[*ssa.BasicBlock]bool{}
 	e.compSort = map[string]string{}
+	if e.refComp == nil {
+		e.refComp = map[string]bool{}
+	}
 	e.closures = map[ssa.Value]*ssa.MakeClosure{}
 	e.defers = nil
 	e.flags = map[string]bool{}
@@ -172,6 +177,7 @@ func (e *Enc) reset() {
 	e.retOrder = nil
 	e.retGuards = nil
 	e.retCount = map[string]int{}
+	e.wfSeen = nil
 }
 
 func (e *Enc) fresh(hint, sort string) string {
@@ -223,6 +229,10 @@ func (e *Enc) get(st *State, key string) string {
 		if key == "alloc" {
 			e.assert(fmt.Sprintf("(>= %s 0)", name))
 		}
+		if e.refComp[key] {
+			st.m[key] = name
+			e.closure(key, name, e.get(st, e.allocKey()))
+		}
 	}
 	st.m[key] = name
 	return name
@@ -271,11 +281,52 @@ func (e *Enc) allocKey() string { return e.regComp("alloc", sInt) }
 
 func (e *Enc) heapKey(structSort string, field int) string {
 	info := e.w.so.structInfo[structSort]
-	return e.regComp(fmt.Sprintf("H|%s|%d", structSort, field), "(Array Int "+info.Sorts[field]+")")
+	k := e.regComp(fmt.Sprintf("H|%s|%d", structSort, field), "(Array Int "+info.Sorts[field]+")")
+	if info.GoT != nil && field < info.GoT.NumFields() && isRefType(info.GoT.Field(field).Type()) {
+		e.refComp[k] = true
+	}
+	return k
 }
 func (e *Enc) memKey(sort string) string {
 	return e.regComp("Mem|"+sort, "(Array Int "+sort+")")
 }
+func isRefType(t types.Type) bool {
+	switch t.Underlying().(type) {
+	case *types.Pointer, *types.Map:
+		return true
+	}
+	return false
+}
+
+// arrKeyT: backing-store heap for slices of the given element type; reference-typed elements get their own heap
+// so that the allocation-closure axiom (every stored reference is allocated) can be stated for it.
+func (e *Enc) arrKeyT(el types.Type) string {
+	if isRefType(el) {
+		k := e.regComp("Arr|Int#ref", "(Array Int (Array Int Int))")
+		e.refComp[k] = true
+		return k
+	}
+	return e.arrKey(e.sortOf(el))
+}
+
+// closure asserts that every reference stored in heap component `term` is allocated w.r.t. allocTerm.
+func (e *Enc) closure(key, term, allocTerm string) {
+	if strings.HasPrefix(key, "Arr|") {
+		e.assert(fmt.Sprintf("(forall ((b Int) (i Int)) (! (<= (select (select %s b) i) %s) :pattern ((select (select %s b) i))))", term, allocTerm, term))
+		return
+	}
+	e.assert(fmt.Sprintf("(forall ((x Int)) (! (<= (select %s x) %s) :pattern ((select %s x))))", term, allocTerm, term))
+}
+
+// closureElem: same for one fresh element of the component (a field value or one backing array).
+func (e *Enc) closureElem(key, elem, allocTerm string) {
+	if strings.HasPrefix(key, "Arr|") {
+		e.assert(fmt.Sprintf("(forall ((i Int)) (! (<= (select %s i) %s) :pattern ((select %s i))))", elem, allocTerm, elem))
+		return
+	}
+	e.assert(fmt.Sprintf("(<= %s %s)", elem, allocTerm))
+}
+
 func (e *Enc) arrKey(sort string) string {
 	return e.regComp("Arr|"+sort, "(Array Int (Array Int "+sort+"))")
 }
@@ -322,7 +373,7 @@ func (e *Enc) placeLoad(st *State, p *Place) string {
 	case pMem:
 		root = sel(e.get(st, e.memKey(e.sortOf(p.RootT))), p.Ref)
 	case pElem:
-		root = sel(sel(e.get(st, e.arrKey(e.sortOf(p.RootT))), p.Ref), p.Idx)
+		root = sel(sel(e.get(st, e.arrKeyT(p.RootT)), p.Ref), p.Idx)
 	default:
 		return e.fresh("unkload", e.sortOf(p.T))
 	}
@@ -380,7 +431,7 @@ func (e *Enc) placeStore(p *Place, v string) {
 		h := e.get(e.st, k)
 		e.set(k, store(h, p.Ref, e.updatePath(sel(h, p.Ref), path, v)))
 	case pElem:
-		k := e.arrKey(e.sortOf(p.RootT))
+		k := e.arrKeyT(p.RootT)
 		h := e.get(e.st, k)
 		a := sel(h, p.Ref)
 		e.set(k, store(h, p.Ref, store(a, p.Idx, e.updatePath(sel(a, p.Idx), path, v))))
